@@ -1,5 +1,5 @@
 // Package memconn provides an in-memory, buffered, full-duplex net.Conn pair. Writes never block (unbounded
-// buffer), so a single-threaded driver can talk to a broker whose goroutines write to several clients at once.
+// buffer) unless the reading end is stalled on purpose, so a single-threaded driver can talk to a broker whose goroutines write to several clients at once.
 package memconn
 
 import (
@@ -13,8 +13,9 @@ import (
 type half struct {
 	mu     sync.Mutex
 	cond   *sync.Cond
-	buf    []byte
-	closed bool // no more data will be written (writer closed) or reader closed
+	buf     []byte
+	closed  bool // no more data will be written (writer closed) or reader closed
+	stalled bool // the reader's window is full: writers block until it opens again (or the half is closed)
 }
 
 func newHalf() *half {
@@ -78,6 +79,9 @@ func (c *Conn) Read(p []byte) (int, error) {
 func (c *Conn) Write(p []byte) (int, error) {
 	c.wr.mu.Lock()
 	defer c.wr.mu.Unlock()
+	for c.wr.stalled && !c.wr.closed {
+		c.wr.cond.Wait()
+	}
 	if c.wr.closed {
 		return 0, io.ErrClosedPipe
 	}
@@ -100,6 +104,15 @@ func (c *Conn) Close() error {
 		close(c.closedCh)
 	})
 	return nil
+}
+
+// Stall makes writes TO this end block (as a peer that stopped reading does once the socket buffers are full) until
+// Stall(false).
+func (c *Conn) Stall(on bool) {
+	c.rd.mu.Lock()
+	c.rd.stalled = on
+	c.rd.cond.Broadcast()
+	c.rd.mu.Unlock()
 }
 
 // Closed is closed when Close has been called on this end.
